@@ -378,6 +378,14 @@ class Exec:
         if isinstance(op, ast.IsNot): return not ((l is r) if not (l is None or r is None) else (l is None and r is None))
         if isinstance(l, TypeV) or isinstance(r, TypeV):
             if isinstance(l, TypeV) and isinstance(r, TypeV) and isinstance(op, (ast.Eq, ast.NotEq)):
+                names = {l.name, r.name}
+                if 'dtype' in names and len(names) == 2:
+                    # the dtype of a numeric array against a concrete type: in the cell abstraction every array holds real cells, so it IS
+                    # float and is NOT object; any other question (complex, int, ...) is outside the abstraction -- never "decided" by name
+                    other = (names - {'dtype'}).pop()
+                    if other == 'float': return isinstance(op, ast.Eq)
+                    if other == 'object': return not isinstance(op, ast.Eq)
+                    raise Undecided('comparison of an array dtype with %s' % other)
                 return (l.name == r.name) == isinstance(op, ast.Eq)
             raise Undecided('type comparison')
         if isinstance(l, (IntV, Cell)) and isinstance(r, (IntV, Cell)):
@@ -967,6 +975,7 @@ class Exec:
             if r is not None: return r
     def stmt(self, s, rest=()):
         st = self.st
+        self.__dict__.setdefault('visited', set()).add(getattr(s, 'lineno', None))      # statement coverage (lib/deductive: code no configuration reaches)
         if isinstance(s, ast.Expr):
             if isinstance(s.value, ast.Constant): return
             self.ev(s.value); return
